@@ -49,6 +49,11 @@ struct Episode<'a> {
     getters_seen: std::collections::BTreeSet<(usize, usize)>,
 }
 
+fn trace_enabled() -> bool {
+    static ON: std::sync::OnceLock<bool> = std::sync::OnceLock::new();
+    *ON.get_or_init(|| std::env::args().any(|a| a == "--trace"))
+}
+
 fn prop_of(op: &Op) -> &'static str {
     match op {
         Op::New { .. }
@@ -92,6 +97,9 @@ impl<'a> Episode<'a> {
     /// Runs one operation; drains ledger and hook events; returns the output unless it panicked.
     fn exec(&mut self, op: Op, report: &mut Report) -> Option<OpOut> {
         let prop = prop_of(&op);
+        if trace_enabled() {
+            eprintln!("TRACE {} cap {} episode {}: {:?}", self.meta.module, self.meta.cap, self.episode, op);
+        }
         self.ops.push(op.clone());
         let drv = &mut *self.drv;
         let out = match catch_unwind(AssertUnwindSafe(|| drv.op(&op))) {
